@@ -470,6 +470,15 @@ def sc_ft(rng):
     s = Script(rng, cfg)
     i = s.handshake(via_tight=True)
     pool = ft_messages(rng) + (tight_messages(rng) if cfg["tight"] else [])
+    if cfg["tight"] and not cfg["pw"]:      # stateful: upload in progress, then data blocks with hostile sizes
+        for _ in range(rng.randint(1, 3)):
+            s.send(i, t_ul(b"/r%d.bin" % rng.randrange(4)))
+            for _ in range(rng.randint(1, 4)):
+                real, comp = rng.choice([0, 1, 4, 5000, 60000, 65535]), rng.choice([0, 1, 4, 5000, 65535])
+                s.tag("t-uldata-state")
+                s.send(i, t_uldata(rng.choice([0, 0, 0, 1]), real, comp, b"d" * comp if (real or comp) else u32(7)))
+            if rng.random() < 0.5:
+                s.send(i, rng.choice([t_uldata(0, 0, 0, u32(9)), t_ulfail(b"stop"), t_dl(b"/r0.bin"), t_dlcancel(b"c")]))
     for _ in range(rng.randint(6, 16)):
         nm, m = rng.choice(pool)
         if rng.random() < 0.3:
@@ -1069,6 +1078,64 @@ def core_ws2(cfg):
     return s
 
 
+def core_tight(cfg):
+    """TightVNC file-transfer extension (security type 16): the whole client message family in the
+    states that matter — upload in progress / none, download in progress / none — with hostile sizes
+    (realSize != compressedSize both ways, 0, 65535), paths outside the root, over-long names"""
+    import random
+    rng = random.Random(4010)
+    s = Script(rng, dict(cfg, tight=1, pw=0, view=0))
+    def hs():
+        i = s.conn(b"RFB 003.008\n")
+        s.send(i, u8(16))
+        s.send(i, u8(1))
+        return i
+    def step(i, m):
+        s.tag("core-tight")
+        s.send(i, m + m_key(1, 0x41))
+    datas = [(4, 4, b"abcd"), (60000, 4, b"abcd"), (4, 60000, b"e" * 60000), (65535, 1, b"x"), (1, 65535, b"y" * 65535),
+             (0, 7, b"1234567"), (7, 0, b""), (65535, 65535, b"z" * 65535)]
+    # upload in progress: every size combination as the first data block of a fresh upload
+    for k, (real, comp, data) in enumerate(datas):
+        i = hs()
+        step(i, t_ul(b"/up%d.bin" % k))
+        step(i, t_uldata(0, real, comp, data))
+        step(i, t_uldata(0, 4, 4, b"more"))
+        step(i, t_uldata(0, 0, 0, u32(1234567)))          # end of upload (mtime)
+        step(i, t_uldata(0, real, comp, data))             # data after the end: no upload in progress
+    # compressed blocks are refused; failed / cancelled uploads; a second upload replaces the first
+    i = hs()
+    step(i, t_ul(b"/c.bin")); step(i, t_uldata(1, 100, 4, b"abcd")); step(i, t_uldata(0, 4, 4, b"abcd"))
+    step(i, t_ul(b"/d.bin")); step(i, t_ulfail(b"disk full")); step(i, t_uldata(0, 9, 3, b"abc"))
+    step(i, t_ul(b"/e.bin")); step(i, t_ul(b"/f.bin")); step(i, t_uldata(0, 3, 3, b"abc")); step(i, t_ulfail(b""))
+    # no upload in progress at all
+    i = hs()
+    for real, comp, data in datas[:4]:
+        step(i, t_uldata(0, real, comp, data))
+    step(i, t_uldata(0, 0, 0, u32(1))); step(i, t_ulfail(b"x")); step(i, t_dlcancel(b"y"))
+    # paths outside the root, directories, over-long and empty names, for every request type
+    names = [b"/../../../etc/passwd", b"/d/../../x", b"..", b"/", b"/d", b"/a.txt", b"/nonexistent/x", b"/" + b"q" * 4094,
+             b"/" + b"q" * 4095, b"/a.txt\x00tail", b"a.txt", b"/up0.bin"]
+    for nm in names:
+        i = hs()
+        step(i, t_list(0, nm)); step(i, t_list(16, nm)); step(i, t_mkdir(nm + b".dir"))
+        step(i, t_ul(nm)); step(i, t_uldata(0, 5000, 2, b"hi")); step(i, t_uldata(0, 0, 0, u32(0)))
+        i = hs()
+        step(i, t_dl(nm)); step(i, t_dlcancel(b"enough")); step(i, t_dl(nm, 0xFFFFFFFF)); step(i, t_dlcancel(b""))
+    # download of an uploaded file, twice without cancelling, then hang up
+    i = hs()
+    step(i, t_ul(b"/big.bin")); step(i, t_uldata(0, 65535, 65535, b"B" * 65535)); step(i, t_uldata(0, 0, 0, u32(5)))
+    step(i, t_dl(b"/big.bin")); step(i, t_dl(b"/big.bin")); step(i, t_dl(b"/a.txt"))
+    s.lines.append("reset %d" % i)
+    # an upload left open when the peer goes away
+    i = hs()
+    step(i, t_ul(b"/open.bin")); step(i, t_uldata(0, 60000, 4, b"abcd"))
+    s.lines.append("reset %d" % i)
+    s.tick()
+    s.lines.append("end")
+    return s
+
+
 def core_scripts():
     out = []
     for cfg in CORE_CFGS:
@@ -1078,6 +1145,7 @@ def core_scripts():
         out.append(("core_trunc", core_trunc(cfg)))
     out.append(("core_ws", core_ws(CORE_CFGS[0])))
     out.append(("core_ws2", core_ws2(CORE_CFGS[0])))
+    out.append(("core_tight", core_tight(CORE_CFGS[0])))
     for cfg in CORE_CFGS:
         out.append(("core_listen", core_listen(cfg)))
     return out
